@@ -26,7 +26,11 @@ package main
 //
 // Accepted idioms: switch on the status / if chains / `a == K`, `K == a`, `!=`, &&, ||, !; the status or
 // the frame held in a local (`st := vm.calls[i].status`, `call := &vm.calls[i]`); the skip of the
-// deferred frames made in the loop condition with the store after the loop; the walk in a helper.
+// deferred frames made in the loop condition with the store after the loop; the walk in a helper; the
+// search in a helper that returns the index of (or a pointer to) the frame, or a sentinel (-1, nil), with
+// the mark in the caller guarded by `i >= 0` / `i != -1` / `f != nil`: the helper is summarised per status
+// value (for which values a frame is returned; where it steps to another frame) and a comparison of its
+// result with a constant is decided from the sentinels when no frame is returned for the value at hand.
 //
 // The frame model and the walker are shared with R-9 (c13r9.go).
 
@@ -64,6 +68,21 @@ type c13Frames struct {
 	nameOf  map[int64]string
 	defs    map[types.Object][]ast.Expr // memo of single clean definitions, per function body
 	body    ast.Node
+	results map[types.Object]*c13Finder // locals holding the result of a frame-finding helper
+}
+
+// c13Finder summarises a helper of the package that returns a frame of the call stack (its index or a
+// pointer to it) or a sentinel (a constant, nil): for which status values of the returned frame a return
+// of a frame is reached, and the sentinels.
+type c13Finder struct {
+	fn       *FuncInfo
+	ns       map[int64]bool // status values for which a frame is returned
+	sentInts []int64
+	sentNil  bool
+	nsteps   int
+	badStep  []string // status values (other than deferred) for which the walk steps to another frame
+	rangeWk  bool
+	why      string // non-empty: not understood
 }
 
 func c13ResolveFrames(a *c11Anchors) *c13Frames {
@@ -116,6 +135,7 @@ func (m *c13Frames) in(body ast.Node) *c13Frames {
 	c := *m
 	c.body = body
 	c.defs = map[types.Object][]ast.Expr{}
+	c.results = map[types.Object]*c13Finder{}
 	return &c
 }
 
@@ -164,6 +184,9 @@ func (m *c13Frames) frameID(e ast.Expr) types.Object {
 		if d := m.singleDef(o); d != nil {
 			if id := m.frameID(d); id != nil {
 				return id
+			}
+			if _, isCall := ast.Unparen(d).(*ast.CallExpr); isCall {
+				return o // the frame a helper returned: identified by the local itself
 			}
 			return nil
 		}
@@ -223,7 +246,12 @@ func (m *c13Frames) eval3(e ast.Expr, ids map[types.Object]bool, v int64) (bool,
 				return true, true
 			}
 			return false, lk && rk
+		case token.LSS, token.LEQ, token.GTR, token.GEQ:
+			return m.evalResult(x, ids, v)
 		case token.EQL, token.NEQ:
+			if val, known := m.evalResult(x, ids, v); known {
+				return val, true
+			}
 			var k ast.Expr
 			switch {
 			case m.statusIn(x.X, ids):
@@ -241,6 +269,48 @@ func (m *c13Frames) eval3(e ast.Expr, ids map[types.Object]bool, v int64) (bool,
 		}
 	}
 	return false, false
+}
+
+// evalResult evaluates a comparison between a local holding the result of a frame-finding helper and a
+// constant (or nil): when the helper returns no frame for the status value v, the local is one of the
+// helper's sentinels.
+func (m *c13Frames) evalResult(x *ast.BinaryExpr, ids map[types.Object]bool, v int64) (bool, bool) {
+	finder := func(e ast.Expr) *c13Finder {
+		if o := c11ObjOf(m.info, e); o != nil && ids[o] {
+			return m.results[o]
+		}
+		return nil
+	}
+	f, other, swapped := finder(x.X), x.Y, false
+	if f == nil {
+		f, other, swapped = finder(x.Y), x.X, true
+	}
+	if f == nil || f.why != "" || f.ns[v] {
+		return false, false
+	}
+	if tv, ok := m.info.Types[other]; ok && tv.IsNil() {
+		if !f.sentNil || len(f.sentInts) > 0 || (x.Op != token.EQL && x.Op != token.NEQ) {
+			return false, false
+		}
+		return x.Op == token.EQL, true
+	}
+	k, ok := intValue(m.info, other)
+	if !ok || f.sentNil || len(f.sentInts) == 0 {
+		return false, false
+	}
+	res, first := false, true
+	for _, sv := range f.sentInts {
+		a, b := constant.MakeInt64(sv), constant.MakeInt64(k)
+		if swapped {
+			a, b = b, a
+		}
+		r := constant.Compare(a, x.Op, b)
+		if !first && r != res {
+			return false, false
+		}
+		res, first = r, false
+	}
+	return res, true
 }
 
 // feasible: can the edge be taken when the status of the frames in ids is v (v < 0: unknown)?
@@ -445,70 +515,32 @@ func c13RecoverWalk(r *Run) {
 				continue
 			}
 			ids := map[types.Object]bool{id: true}
-			lo, hi := region.Pos(), region.End()
-			// start points: the start of the region and every node assigning the index
-			type start struct {
-				b *cfg.Block
-				i int
-			}
-			var starts []start
-			switch rg := region.(type) {
-			case *ast.CaseClause:
-				for _, b := range c.G.Blocks {
-					if b.Kind == cfg.KindSwitchCaseBody && b.Stmt == ast.Stmt(rg) {
-						starts = append(starts, start{b, 0})
-					}
-				}
-			default:
-				starts = append(starts, start{c.G.Blocks[0], 0})
-			}
-			rangeWalk := false
-			var steps []ast.Node // assignments of the index made inside a loop (body or post statement)
-			par := r.P.Parents(fi.File)
-			for _, b := range c.G.Blocks {
-				for i, n := range b.Nodes {
-					if n.Pos() < lo || n.End() > hi || !m.assignsVar(n, ids) {
-						continue
-					}
-					starts = append(starts, start{b, i + 1})
-					for p := par[n]; p != nil && p != region; p = par[p] {
-						if fs, ok := p.(*ast.ForStmt); ok {
-							if fs.Init == nil || !containsNode(fs.Init, n) {
-								steps = append(steps, n)
-							}
-							break
-						}
-						if _, ok := p.(*ast.RangeStmt); ok {
-							rangeWalk = true
-							break
-						}
-						if _, ok := p.(*ast.FuncLit); ok {
-							break
-						}
-					}
+			// the index may be the result of a frame-finding helper: summarise it first
+			var finder *c13Finder
+			if d := m.singleDef(id); d != nil {
+				if hc, ok := ast.Unparen(d).(*ast.CallExpr); ok {
+					finder = c13SummariseFinder(r, m0, m.info, hc, vals, need["deferred"])
+					m.results[id] = finder
 				}
 			}
-			if len(starts) == 0 {
+			rg := c13ScanRegion(r, fi, m, c, region, ids)
+			if len(rg.starts) == 0 {
 				oa.Unknown("no start point located in the graph")
 				ob.Unknown("see %s", oa.Construct)
 				continue
 			}
+			steps, rangeWalk := rg.steps, rg.rangeWalk
 			var badStore, badStep []string
 			okStore := false
 			for _, v := range vals {
-				reachS, reachStep := false, false
-				for _, st := range starts {
-					vis := m.walk(c, st.b, st.i, ids, v, lo, hi)
-					if vis[S] {
-						reachS = true
-					}
-					for _, sn := range steps {
-						if vis[sn] {
-							reachStep = true
-						}
+				vis := rg.visit(m, c, ids, v)
+				reachStep := false
+				for _, sn := range steps {
+					if vis[sn] {
+						reachStep = true
 					}
 				}
-				if reachS {
+				if vis[S] {
 					if v == need["panicked"] {
 						okStore = true
 					} else {
@@ -519,13 +551,33 @@ func c13RecoverWalk(r *Run) {
 					badStep = append(badStep, m.nameOf[v])
 				}
 			}
+			via := ""
+			if finder != nil && finder.why == "" {
+				via = " (the frame is the one " + finder.fn.Name() + " returns: a frame is returned only for the status " + c13StatusNames(m, finder.ns) + ")"
+				nsteps := len(steps) + finder.nsteps
+				for _, b := range finder.badStep {
+					dup := false
+					for _, x := range badStep {
+						dup = dup || x == b
+					}
+					if !dup {
+						badStep = append(badStep, b)
+					}
+				}
+				rangeWalk = rangeWalk || finder.rangeWk
+				if nsteps > len(steps) {
+					steps = append(steps, finder.fn.Decl) // only the count matters below
+				}
+			}
 			switch {
+			case len(badStore) > 0 && finder != nil && finder.why != "":
+				oa.Unknown("the frame marked recovered is the result of a helper that is not understood (%s): under which status it is returned is not decided", finder.why)
 			case len(badStore) > 0:
 				oa.Bad("the frame is marked recovered also when its status is %s: a recover() that must return nil stops the panic in flight (the output error of a failed write) and Run returns nil instead of the writer's error", strings.Join(badStore, ", "))
 			case !okStore:
 				oa.Unknown("the store is not reached for the status panicked")
 			default:
-				oa.OK("the store of recovered into %s[%s] is reached only when the status read from that frame is panicked (evaluated for the %d status values)", m.fCalls.Name(), id.Name(), len(vals))
+				oa.OK("the store of recovered into %s[%s] is reached only when the status read from that frame is panicked (evaluated for the %d status values)%s", m.fCalls.Name(), id.Name(), len(vals), via)
 			}
 			switch {
 			case rangeWalk:
@@ -535,7 +587,7 @@ func c13RecoverWalk(r *Run) {
 			case len(steps) == 0:
 				ob.OK("the index %s is not changed inside a loop: one frame is inspected", id.Name())
 			default:
-				ob.OK("inside the loop the index %s is changed only when the status read from the current frame is deferred (evaluated for the %d status values)", id.Name(), len(vals))
+				ob.OK("inside the loop the index %s is changed only when the status read from the current frame is deferred (evaluated for the %d status values)%s", id.Name(), len(vals), via)
 			}
 		}
 	}
@@ -543,4 +595,186 @@ func c13RecoverWalk(r *Run) {
 		r.Ob(R, "runtime#stores-of-recovered", token.NoPos).Unknown("no store of the status recovered into a frame of the call stack was found in package runtime: how recover marks the frame is not understood")
 	}
 	r.Require(R, 2)
+}
+
+// c13Region holds the start points of the walks in a region (its entry and every assignment of the frame
+// index) and the assignments of the index made inside a loop.
+type c13Region struct {
+	lo, hi token.Pos
+	starts []struct {
+		b *cfg.Block
+		i int
+	}
+	steps     []ast.Node
+	rangeWalk bool
+}
+
+func c13ScanRegion(r *Run, fi *FuncInfo, m *c13Frames, c *CFGInfo, region ast.Node, ids map[types.Object]bool) *c13Region {
+	rg := &c13Region{lo: region.Pos(), hi: region.End()}
+	add := func(b *cfg.Block, i int) {
+		rg.starts = append(rg.starts, struct {
+			b *cfg.Block
+			i int
+		}{b, i})
+	}
+	switch x := region.(type) {
+	case *ast.CaseClause:
+		for _, b := range c.G.Blocks {
+			if b.Kind == cfg.KindSwitchCaseBody && b.Stmt == ast.Stmt(x) {
+				add(b, 0)
+			}
+		}
+	default:
+		add(c.G.Blocks[0], 0)
+	}
+	par := r.P.Parents(fi.File)
+	for _, b := range c.G.Blocks {
+		for i, n := range b.Nodes {
+			if n.Pos() < rg.lo || n.End() > rg.hi || !m.assignsVar(n, ids) {
+				continue
+			}
+			add(b, i+1)
+			for p := par[n]; p != nil && p != region; p = par[p] {
+				if fs, ok := p.(*ast.ForStmt); ok {
+					if fs.Init == nil || !containsNode(fs.Init, n) {
+						rg.steps = append(rg.steps, n)
+					}
+					break
+				}
+				if _, ok := p.(*ast.RangeStmt); ok {
+					rg.rangeWalk = true
+					break
+				}
+				if _, ok := p.(*ast.FuncLit); ok {
+					break
+				}
+			}
+		}
+	}
+	return rg
+}
+
+// visit returns the nodes executed from any start point with the status of the inspected frame == v.
+func (rg *c13Region) visit(m *c13Frames, c *CFGInfo, ids map[types.Object]bool, v int64) map[ast.Node]bool {
+	all := map[ast.Node]bool{}
+	for _, st := range rg.starts {
+		for n := range m.walk(c, st.b, st.i, ids, v, rg.lo, rg.hi) {
+			all[n] = true
+		}
+	}
+	return all
+}
+
+func c13StatusNames(m *c13Frames, set map[int64]bool) string {
+	var vs []int64
+	for v, in := range set {
+		if in {
+			vs = append(vs, v)
+		}
+	}
+	sort.Slice(vs, func(i, j int) bool { return vs[i] < vs[j] })
+	var out []string
+	for _, v := range vs {
+		out = append(out, m.nameOf[v])
+	}
+	if len(out) == 0 {
+		return "(none)"
+	}
+	return strings.Join(out, ", ")
+}
+
+var c13FinderCache = map[*types.Func]*c13Finder{}
+
+// c13SummariseFinder reads the helper called by hc: a function of package runtime with one result (an
+// integer or a pointer to a frame) whose returns are either a sentinel (a constant, nil) or the frame
+// selected by ONE index variable. Its body is evaluated like the inline walk: for every status value of
+// the frame selected by that variable, is a return of the frame reached, and is the variable changed
+// inside a loop.
+func c13SummariseFinder(r *Run, m0 *c13Frames, info *types.Info, hc *ast.CallExpr, vals []int64, deferredV int64) *c13Finder {
+	fn := callee(info, hc)
+	if fn == nil {
+		return &c13Finder{why: "the callee is not a declared function"}
+	}
+	if f, ok := c13FinderCache[fn]; ok {
+		return f
+	}
+	f := &c13Finder{ns: map[int64]bool{}}
+	c13FinderCache[fn] = f
+	for _, fi := range r.P.Funcs(c11RT) {
+		if fi.Obj == fn && fi.Decl.Body != nil && !r.P.isTestFile(fi.File) {
+			f.fn = fi
+		}
+	}
+	if f.fn == nil {
+		f.why = "the callee is not a function of package runtime"
+		return f
+	}
+	sig := fn.Type().(*types.Signature)
+	if sig.Results().Len() != 1 {
+		f.why = "the helper does not have exactly one result"
+		return f
+	}
+	rt := sig.Results().At(0).Type()
+	isPtr := false
+	if _, ok := rt.(*types.Pointer); ok && c11NamedOf(rt) == m0.frameT {
+		isPtr = true
+	} else if b, ok := rt.Underlying().(*types.Basic); !ok || b.Info()&types.IsInteger == 0 {
+		f.why = "the result of the helper is neither an integer nor a pointer to a frame"
+		return f
+	}
+	m := m0.in(f.fn.Decl.Body)
+	c := r.P.CFGOf(f.fn)
+	var idx types.Object
+	var frameRets []ast.Node
+	for _, rs := range c.Returns() {
+		if len(rs.Results) != 1 {
+			f.why = "a return of the helper has no explicit result"
+			return f
+		}
+		e := rs.Results[0]
+		if tv, ok := m.info.Types[e]; ok && tv.IsNil() {
+			f.sentNil = true
+			continue
+		}
+		if k, ok := intValue(m.info, e); ok && !isPtr {
+			f.sentInts = append(f.sentInts, k)
+			continue
+		}
+		var o types.Object
+		if isPtr {
+			o = m.frameID(e)
+		} else if vr, ok := c11ObjOf(m.info, e).(*types.Var); ok && !vr.IsField() {
+			o = vr
+		}
+		if o == nil || (idx != nil && idx != o) {
+			f.why = "a return of the helper is neither a constant nor the frame selected by one index variable"
+			return f
+		}
+		idx = o
+		frameRets = append(frameRets, rs)
+	}
+	if idx == nil {
+		f.why = "the helper never returns a frame"
+		return f
+	}
+	ids := map[types.Object]bool{idx: true}
+	rg := c13ScanRegion(r, f.fn, m, c, f.fn.Decl.Body, ids)
+	f.nsteps, f.rangeWk = len(rg.steps), rg.rangeWalk
+	for _, v := range vals {
+		vis := rg.visit(m, c, ids, v)
+		for _, rn := range frameRets {
+			if vis[rn] {
+				f.ns[v] = true
+			}
+		}
+		if v != deferredV {
+			for _, sn := range rg.steps {
+				if vis[sn] {
+					f.badStep = append(f.badStep, m.nameOf[v])
+					break
+				}
+			}
+		}
+	}
+	return f
 }
